@@ -95,6 +95,9 @@ def run_recv(seed, stream, cfg, res=None, peer_extra=None, side=None, policy=Non
             if policy and policy.get("kind") in ("prob", "pct", "at"):
                 w.k.start_tracing()
             side_thread = side(w, c)
+        nonblocking = bool(cfg.get("nonblocking")) and T is not None
+        if ok and nonblocking:
+            c.settimeout(0)  # from here on a read that finds nothing raises BlockingIOError; the caller polls every T
         if ok:
             sock_obj = c.sock
             if api == "recv":
@@ -115,7 +118,16 @@ def run_recv(seed, stream, cfg, res=None, peer_extra=None, side=None, policy=Non
                 except SimAbort:
                     obs.append(["abort", w.k.abort_reason])
                     break
-                except ws.WebSocketTimeoutException:
+                except (ws.WebSocketTimeoutException, BlockingIOError) as e_:
+                    if isinstance(e_, BlockingIOError):
+                        if not nonblocking:
+                            obs.append(["exc", exc_name(e_), 0, 1])
+                            break
+                        try:
+                            w.k.sleep(T)
+                        except SimAbort:
+                            obs.append(["abort", w.k.abort_reason])
+                            break
                     timeouts += 1
                     close_written = bool(peers) and peers[0].close_seen is not None
                     if c.sock is None or c.sock is not sock_obj or sock_obj.closed or \
